@@ -13,6 +13,7 @@ import (
 	"time"
 
 	limit "github.com/influxdata/influxdb/pkg/limiter"
+	"github.com/influxdata/influxdb/pkg/verifhook"
 )
 
 // Possible errors returned by a hinted handoff queue.
@@ -435,6 +436,7 @@ func (l *queue) trimHead() error {
 		if err := os.Remove(l.head.path); err != nil {
 			return err
 		}
+		verifhook.Fire("hh.trim", l.head.path)
 		l.head = l.segments[0]
 	}
 	return nil
@@ -603,13 +605,16 @@ func (l *segment) flush() error {
 		return err
 	}
 
+	verifhook.Fire("hh.flush.before", l.path, l.size-footerSize, buf.Bytes())
 	if err := l.writeBytes(buf.Bytes()); err != nil {
 		return err
 	}
+	verifhook.Fire("hh.flush.written", l.path)
 
 	if err := l.file.Sync(); err != nil {
 		return err
 	}
+	verifhook.Fire("hh.flush.synced", l.path)
 
 	if l.currentSize == 0 {
 		l.currentSize = int64(binary.BigEndian.Uint64(b[:8]))
@@ -712,6 +717,7 @@ func (l *segment) advance() error {
 	if err := l.file.Sync(); err != nil {
 		return err
 	}
+	verifhook.Fire("hh.advance", l.path, pos)
 	l.pos = pos
 
 	if err := l.seekToCurrent(); err != nil {
